@@ -1,6 +1,5 @@
 # C07 — file writing is record-atomic and order-preserving under any disk timing.
-CLAIMED = False
-NOT_YET = "check under construction (nothing is claimed for it yet)"
+CLAIMED = True
 
 CFG = dict(
     rule="three kinds of cases, each in a child process (a hang or crash is an observed output). AB (~95%): the REAL asyncbufio.Writer with queue "
